@@ -1712,6 +1712,12 @@ func resolveIndex(v, index reflect.Value, indexAsStr string) (reflect.Value, err
 			ptr = ptr.Addr()
 		}
 		if method := ptr.MethodByName(indexAsStr); method.IsValid() {
+			if isNil && v.Kind() == reflect.Ptr {
+				if _, byValue := v.Type().Elem().MethodByName(indexAsStr); byValue {
+					// a method with a value receiver cannot be called through a nil pointer
+					return reflect.Value{}, fmt.Errorf("nil pointer evaluating %s.%s", v.Type(), indexAsStr)
+				}
+			}
 			return method, nil
 		}
 	}
